@@ -1685,11 +1685,23 @@ class BinBytes8(BinBytes):
     length_bytes = 8
 
 
+def encode_long(n: int) -> bytes:
+    """Little-endian two's complement of n, the payload of LONG1 / LONG4 (empty for zero)"""
+    if n == 0:
+        return b""
+    return n.to_bytes((n.bit_length() >> 3) + 1, "little", signed=True)
+
+
 class Long1(ConstantInt):
     name = "LONG1"
     num_bytes = 1
     signed = True
     priority = BinInt.priority + 1
+
+    def encode_body(self) -> bytes:
+        # a one-byte count followed by that many bytes of little-endian two's complement
+        data = encode_long(self.arg)
+        return struct.pack("<B", len(data)) + data
 
 
 class Long4(ConstantInt):
@@ -1697,6 +1709,11 @@ class Long4(ConstantInt):
     num_bytes = 4
     signed = True
     priority = Long1.priority + 1
+
+    def encode_body(self) -> bytes:
+        # a signed four-byte count followed by that many bytes of little-endian two's complement
+        data = encode_long(self.arg)
+        return struct.pack("<i", len(data)) + data
 
 
 class Int(ConstantOpcode):
